@@ -97,6 +97,8 @@ def check(ctx):
     ctx.attempt(_hand_down)
     ctx.attempt(forward.check_all, module_suffixes=('plssdesc.plss_parse', 'plssdesc.plssdesc', 'tract.tract', 'trs.trs'))
     ctx.attempt(emitted_trs_accepted)
+    from .c15 import _escape                  # a tract's parts are read from a dict nobody else can edit
+    ctx.attempt(_escape)
     ctx.attempt(common.clause_purity, [f for f in ctx.repo.funcs.values() if f.module.name.endswith(('trs.trs','tract.tract'))])
     ctx.attempt(common.parallel_shapes, [f for f in ctx.repo.funcs.values() if f.module.name.endswith(('trs.trs','tract.tract'))])
 
